@@ -83,6 +83,11 @@ FRAGMENT_HISTORY = [
                                "call:user-fn-args": 36, "call:string_len": 34,
                                "go-const-expr (operation on literals, not exact)": 23, "if:type": 12,
                                "float literal": 10, "match:literal-arms": 9}},
+    {"stage": "+ string_len (runtime function int32(len(s)))",
+     "inside": 5509, "inside_with_trait_objects_only": 207, "functions": 6160,
+     "first_reasons_outside": {"callee outside": 154, "same let re-declared in two match clauses": 141,
+                               "call:user-fn-args": 37, "go-const-expr (operation on literals, not exact)": 25,
+                               "if:type": 12, "float literal": 10, "match:literal-arms": 9}},
 ]
 
 
